@@ -12,7 +12,8 @@ def SELECT(name):
 TRUSTED = cm.TRUSTED_CORE
 ASSUMPTIONS = cm.ASSUME_CORE + ['multiplicity of #k substitution (each occurrence replaced once, in order) is not proved: summarised lists do not carry order']
 LEVEL_TEXT = 'Proves: h_newcommand and parse_def_macro register a macro that satisfies MacInv (argument code over {*,A,O}, every #k of the body within 1..n -- established by the checking loop of h_newcommand, proved as loop body contract), and leave no text (result [] / one Action token); expand_arguments collects exactly one argument list per code letter, mandatory ones non-empty, defaults as stamped fresh copies; generate_replacements indexes arguments[k-1] safely and emits only argument tokens or stamped fresh copies of body tokens inside the hull of call position and arguments; definition texts (--defs, \\\\LTinput) go through the same parser_work and contribute only language tokens and no flows. expand_macro expands a name that is declared at the call exactly once, with the current entry of the_macros, and never expands an undeclared one (postcondition over the ghost history of expand_arguments calls) -- so a use before the definition is unknown and a redefinition affects later uses only. NOT decided: equality of three complete runs up to a shift, program order of definitions.'
-LEVEL_NOTE = 'Relational cross-run statement not expressible as a contract of one call.'
+LEVEL_NOTE = ('Relational cross-run statement not expressible as a contract of one call.'
+    + ' A bounded stand-in in the quick tier (definition blocks in place, read by LTinput and given by --defs must give the same text, all sequences of <= 4 pieces) states the cross-run sentence on the real code; reported as bounded, not counted as proved.')
 TECHNIQUE = 'contract-based deductive verification: per-function postconditions and loop invariants over the real AST, z3; end-to-end sentence of the property not decided'
 
 
